@@ -979,7 +979,15 @@ fn probes(repo: &Path, fn_bounds: Option<&str>, rep: &mut Report) {
     const INTO_FUNC_SUM: u64 = 332_833_500;
     let inf = run_probe(repo, "into_func_send", PROBE_INTO_FUNC_SEND);
     rep.hist("rustc-probe", format!("into_func_send:{}", if inf.built { "accepted" } else { "rejected" }));
-    if !inf.built {
+    let not_send = inf.diagnostics.contains("E0277")
+        && (inf.diagnostics.contains("cannot be sent between threads safely") || inf.diagnostics.contains("cannot be shared between threads safely"));
+    if !inf.built && !not_send {
+        // the probe did not build for another reason than an auto-trait error: that says nothing about the property
+        rep.mismatch(
+            "rustc probe into_func_send failed to build for another reason than a Send / Sync error",
+            json!({"diagnostics": inf.diagnostics[inf.diagnostics.find("error").unwrap_or(0)..].chars().take(1500).collect::<String>()}),
+        );
+    } else if !inf.built {
         rep.violation(
             "the closure returned by TypedFunc::into_func can no longer be moved to another thread (it stopped being Send: it no longer owns the handle, whose Send/Sync impls made it so)",
             "into-func-closure-not-send",
